@@ -11,6 +11,8 @@ for d in sorted(Path("/verif/seeded").iterdir()):
     what = re.sub(r"\s+", " ", what)[:230]
     det = ", ".join(f"{c['check']} {c['tier']}" for c in m["checks_run"] if c["exit"] == 1) or (
         "not detected (by design, see meta.json)" if m.get("not_detected_by_design") else "-")
+    if m.get("detected_by_thorough_tier_only"):
+        det = "C14 thorough only (see meta.json)"
     miss = ", ".join(f"{c['check']} {c['tier']}" for c in m["checks_run"] if c["exit"] == 0)
     flag = "yes (check strengthened)" if m.get("missed_before_strengthening") else "no"
     rows.append(f"| `{m['id']}` | {what} | {det} | {flag} |")
